@@ -594,7 +594,7 @@ func (e *engine) setup() error {
 func (e *engine) waitFor(what string, idle time.Duration, cond func() bool) bool {
 	last := int64(-1)
 	lastChange := time.Now()
-	hard := time.Now().Add(4 * time.Minute)
+	hard := time.Now().Add(100 * time.Second)
 	for {
 		if cond() {
 			return true
